@@ -114,6 +114,26 @@ var allKinds = []string{"operator", "account", "user", "activation", "authorizat
 var v1Kinds = []string{"operator", "account", "user", "activation", "generic"}
 
 // expectedLayout: which text the statement says must have been signed, from the harness's own reading.
+// reportedVersion: the version the returned (typed) claims report, read from their own JSON form
+func reportedVersion(cl jwt.Claims) (int, bool) {
+	b, err := json.Marshal(cl)
+	if err != nil {
+		return 0, false
+	}
+	var m struct {
+		Nats struct {
+			Version *int `json:"version"`
+		} `json:"nats"`
+	}
+	if json.Unmarshal(b, &m) != nil {
+		return 0, false
+	}
+	if m.Nats.Version == nil {
+		return 0, true
+	}
+	return *m.Nats.Version, true
+}
+
 func expectedLayout(f tokenFacts, decodedKind string) string {
 	if decodedKind == "generic" {
 		if f.hdrAlg == "ed25519" {
@@ -175,6 +195,13 @@ func checkToken(c *Ctx, tok string, rp c01Replay, origDumps map[string]string) {
 		if !f.okSegs || !f.sigOK || !oracleVerify(iss, text, f.sig) {
 			c.Violate("authenticity", fmt.Sprintf("%s accepted a token whose third segment is not a valid signature by the reported issuer %q over the %s text", name, iss, lay), rp)
 		}
+		// the statement is about the claims RETURNED: claims that report version 2 must be signed over header.payload,
+		// whatever the payload says at its top level
+		if k != "generic" && name != "DecodeGeneric" {
+			if v, ok := reportedVersion(r.claims); ok && v >= 2 && f.okSegs && f.sigOK && !oracleVerify(iss, f.segs[0]+"."+f.segs[1], f.sig) {
+				c.Violate("authenticity", fmt.Sprintf("%s returned %s claims reporting version %d whose signature does not cover header.payload", name, k, v), rp)
+			}
+		}
 		if strings.HasPrefix(name, "Decode:") && "Decode:"+k != name {
 			c.Violate("kind-safety", name+" returned claims of kind "+k, rp)
 		}
@@ -213,7 +240,7 @@ func dumpsOf(tok string) map[string]string {
 const b64Alphabet = "ABCDEFGHIJKLMNOPQRSTUVWXYZabcdefghijklmnopqrstuvwxyz0123456789-_"
 
 func runC01(c *Ctx) {
-	c.Res.Rule = "tokens: valid tokens of 7 kinds x {v2 Encode, v1compat Encode}; single-character substitutions / insertions / deletions in every segment (sampled in quick, every position of a token pool in thorough); alterations that leave the base64url alphabet (padding, +, /, line breaks, blanks in every segment); segment splices between tokens of different issuers/kinds; payloads re-signed by a foreign key keeping iss; wrong-layout signatures both ways; header rewrites; issuers that are well-formed nkey strings carrying a key that is not 32 bytes (the signer's key truncated or extended); random strings. Every token goes through Decode, DecodeGeneric and the six typed decoders. Oracle: any acceptance must verify (crypto/ed25519 + the harness's own nkey decoder) under the REPORTED issuer over exactly the text the statement names; an accepted alteration must have identical content. non-trivial = distinct tokens that reached signature verification or were accepted."
+	c.Res.Rule = "tokens: valid tokens of 7 kinds x {v2 Encode, v1compat Encode}; single-character substitutions / insertions / deletions in every segment (sampled in quick, every position of a token pool in thorough); alterations that leave the base64url alphabet (padding, +, /, line breaks, blanks in every segment); segment splices between tokens of different issuers/kinds; payloads re-signed by a foreign key keeping iss; wrong-layout signatures both ways; header rewrites; issuers that are well-formed nkey strings carrying a key that is not 32 bytes (the signer's key truncated or extended); hybrid payloads (top-level kind AND nats kind/version, equal or different, all roles, both layouts); random strings. A valid token is decoded right before every judged decode (verdicts must not depend on what was decoded before). Every token goes through Decode, DecodeGeneric and the six typed decoders. Oracle: any acceptance must verify (crypto/ed25519 + the harness's own nkey decoder) under the REPORTED issuer over exactly the text the statement names; an accepted alteration must have identical content. non-trivial = distinct tokens that reached signature verification or were accepted."
 	type vt struct{ tok, kind, layout string }
 	var pool []vt
 	for round := 0; round < c.N(2, 6); round++ {
@@ -235,6 +262,11 @@ func runC01(c *Ctx) {
 		}
 	}
 	c.Sample(map[string]string{"valid_token": pool[0].tok})
+	// payloads that declare kind / version in both places (top level and nats section): whatever the loader builds,
+	// the signature must cover the text that the version of the RETURNED claims dictates
+	forEachHybrid(c, func(tok, label, role, layout string) {
+		checkToken(c, tok, c01Replay{tok, "", "hybrid-" + label + "-" + role + "-" + layout}, nil)
+	})
 	// single-character edits
 	nEdits := c.N(40, 0) // 0 = exhaustive positions
 	for pi, p := range pool {
